@@ -17,31 +17,37 @@ from .model import AnalysisError
 
 # property -> [(home property, rule ids, where-filter or None, why this is a necessary condition of the property)]
 SUPPORT = {
-    'C01': [('C07', ['C07.R6'], None,
+    'C01': [('C19', ['C19.R6'], ('base/', 'package::'), 'the lists and counters a store / node keeps are its own: no object shared between instances, no two attributes bound to one list'),
+            ('C07', ['C07.R6'], None,
              'a granted reservation is honoured only if its owner is the process that asked for it: the owner tag is taken at request time')],
     'C03': [('C02', ['C02.R1', 'C02.R5', 'C02.R7'], None,
              'factory-wide conservation needs every store operation to be multiset-neutral and to hand out the item it removed'),
             ('C10', ['C10.R1', 'C10.R2', 'C10.R5'], None,
              'every generated item ends up received or discarded only if no item is stranded: a reservation left behind binds the next item to nobody, a conveyor '
              'whose process is never told of a transfer strands the items behind')],
-    'C04': [('C13', ['C13.R2'], None,
+    'C04': [('C19', ['C19.R6'], ('base/', 'package::'), 'the lists and counters a store / node keeps are its own: no object shared between instances, no two attributes bound to one list'),
+            ('C13', ['C13.R2'], None,
              'a reservation waiting for the end of a belt travel is served only if the travel, resumed after a stall, ends at the computed instant'),
             ('C12', ['C12.R2'], None,
              'the belt store re-triggers waiting space requests at the end of the travel time the EDGE hands it: both sides must compute it by the same formula')],
-    'C06': [('C11', ['C11.R4'], None,
+    'C06': [('C19', ['C19.R6'], ('base/', 'package::'), 'the lists and counters a store / node keeps are its own: no object shared between instances, no two attributes bound to one list'),
+            ('C11', ['C11.R4'], None,
              'the retrieval order is the order of becoming ready: each delay timer promotes its own item'),
             ('C20', ['C20.R4'], ('validates:mode',),
              'the store treats every mode that is not exactly "FIFO" as LIFO: the Buffer must reject what the store does not distinguish')],
     'C08': [('C04', ['C04.R1'], None, 'an item leaves late only while no permitted out-edge can accept it: the waiting put reservation must be woken'),
             ('C11', ['C11.R1'], None, 'the node decides "able to accept" by can_put()'),
             ('C11', ['C11.R5'], ('get_delay',), 'the delay is drawn exactly once per item only if every get_delay() call consults its source'),
-            ('C10', ['C10.R1', 'C10.R2'], None, 'a reservation the node leaves behind on an out-edge occupies its slot for ever: later items are held although the edge is empty')],
+            ('C10', ['C10.R1', 'C10.R2'], None, 'a reservation the node leaves behind on an out-edge occupies its slot for ever: later items are held although the edge is empty'),
+            ('C15', ['C15.R7'], ('fresh-selector-per-call',), 'an item is held past its delay when the rotation sends it to a full edge while the edge whose turn it is stands empty')],
     'C09': [('C11', ['C11.R1'], None, 'push-or-drop is decided by can_put(): it must agree with the grant condition'),
             ('C06', ['C06.R4'], ('reserve_put',), 'a blocking node waits until AN out-edge accepts: it waits on all its put reservations and takes the first granted')],
     'C10': [('C04', ['C04.R1'], None, 'work is taken / delivered at once only if the store wakes the waiting reservation at that instant'),
             ('C11', ['C11.R1'], None, 'the node decides "has room / has an item" by can_put() / can_get()'),
-            ('C15', ['C15.R7'], ('fresh-selector-per-call',), 'an in-edge whose round-robin turn never comes keeps its items although the node is free')],
-    'C11': [('C04', ['C04.R1'], None, 'can_get()/can_put() ≡ "granted immediately" presupposes that nothing servable is left waiting in front'),
+            ('C15', ['C15.R7'], ('fresh-selector-per-call',), 'an in-edge whose round-robin turn never comes keeps its items although the node is free'),
+            ('C12', ['C12.R1'], ('spacing-gate[non-empty belt]',), 'a producer blocked at the belt entry is served at the instant the last item has cleared one item length: the gate must accept that exact instant')],
+    'C11': [('C19', ['C19.R6'], ('base/', 'edges/', 'package::'), 'the lists and counters a store / node keeps are its own: no object shared between instances, no two attributes bound to one list'),
+            ('C04', ['C04.R1'], None, 'can_get()/can_put() ≡ "granted immediately" presupposes that nothing servable is left waiting in front'),
             ('C02', ['C02.R5'], None, 'the ready block counted by can_get() is the block the granted reservations are bound to (index agreement)')],
     'C12': [('C13', ['C13.R6', 'C13.R7'], None, 'minimum travel time and spacing survive a stall only with the stall bookkeeping of C13'),
             ('C06', ['C06.R1', 'C06.R2'], ('belt_store', 'conveyor'), 'items leave in entry order: the belt store hands out / re-inserts in FIFO position')],
@@ -55,8 +61,14 @@ SUPPORT = {
     'C16': [('C02', ['C02.R1', 'C02.R5'], None, 'the pallet / the packed items are the objects the stores handed out'),
             ('C03', ['C03.R1'], ('nodes/splitter.py', 'nodes/combiner.py'), 'every item taken by a splitter / combiner is emitted or packed on every path'),
             ('C11', ['C11.R1'], None, 'a non-blocking splitter emits exactly what can_put() lets through')],
-    'C17': [('C07', ['C07.R8'], ('.put::',), 'time charged to BLOCKED is time spent waiting for room: a blocking Source suspends on whatever put() returns that is a process')],
+    'C17': [('C19', ['C19.R6'], ('nodes/', 'package::'), 'the lists and counters a store / node keeps are its own: no object shared between instances, no two attributes bound to one list'),
+            ('C07', ['C07.R8'], ('.put::',), 'time charged to BLOCKED is time spent waiting for room: a blocking Source suspends on whatever put() returns that is a process')],
     'C19': [('C18', ['C18.R6'], None, 'time is monotone for every component only if every recorded instant is a reading of the kernel clock, not a rounded or derived value')],
+    'C02': [('C19', ['C19.R6'], ('base/', 'helper/', 'package::'), 'the lists and counters a store / node keeps are its own: no object shared between instances, no two attributes bound to one list')],
+    'C05': [('C19', ['C19.R6'], ('base/', 'package::'), 'the lists and counters a store / node keeps are its own: no object shared between instances, no two attributes bound to one list')],
+    'C07': [('C01', ['C01.O7'], None, 'the protocol is enforced by the store the EDGE owns: every wrapper delegates to that store, exactly once'),
+            ('C19', ['C19.R6'], ('base/', 'package::'), 'the lists and counters a store / node keeps are its own: no object shared between instances, no two attributes bound to one list')],
+    'C18': [('C19', ['C19.R6'], None, 'the lists and counters a store / node keeps are its own: no object shared between instances, no two attributes bound to one list')],
     'C20': [('C01', ['C01.O0', 'C01.O1'], None, 'stores raise RuntimeError on overflow: a grant beyond capacity crashes the run'),
             ('C06', ['C06.R4'], None, 'a node that finds no granted token after its wait raises'),
             ('C07', ['C07.R7', 'C07.R8'], None, 'a swallowed protocol error lets a run go on with a lost item; a cancellation that reports failure makes the node raise'),
